@@ -2,6 +2,7 @@ pub mod arena;
 pub mod crash;
 pub mod front;
 pub mod layout;
+pub mod limits;
 pub mod pool;
 pub mod proccap;
 pub mod procspec;
@@ -48,6 +49,7 @@ pub fn dispatch(ctx: &mut Ctx) {
         "gen" => sem::dump(ctx),
         "crash" => crash::run(ctx),
         "front" => front::run(ctx),
+        "limits" => limits::run(ctx),
         "ship" => ship::run(ctx),
         "static" => staticck::run(ctx),
         "layout" => layout::run(ctx),
